@@ -299,7 +299,12 @@ def cases(draw):
     if op in ("get", "getnext", "walk", "table", "bulktable"):
         case["oids"] = [draw(long_oid())]
     elif op in ("multiget", "multigetnext"):
-        case["oids"] = draw(st.lists(long_oid(), min_size=1, max_size=10))
+        if draw(st.integers(0, 9)) == 0:
+            # hundreds of bindings in one request (binding list longer than 127 / 255 / 65535 octets)
+            n = draw(st.sampled_from([40, 128, 300, 2000]))
+            case["oids"] = [[1, 3, 6, 1, 2, 1, 2, 2, 1, 1 + i % 22, 1 + i // 22] for i in range(n)]
+        else:
+            case["oids"] = draw(st.lists(long_oid(), min_size=1, max_size=10))
     elif op in ("multiwalk", "bulkwalk"):
         # pairwise disjoint roots: distinct heads below a common prefix
         pre = draw(long_oid())[:8]
